@@ -80,6 +80,8 @@ pub static LOGQ_OVER_LIMIT: AtomicU64 = AtomicU64::new(0);
 /// executions in which 16 or more applied log files were seen waiting (C15, sync_data = false)
 pub static KEPT_LOGS_AT_LIMIT: AtomicU64 = AtomicU64::new(0);
 /// largest number of observer steps any execution needed until the pipeline had drained (C15)
+/// transactions without queue bytes (removals only / empty) committed after the clients finished (C15)
+pub static ZERO_BYTE_TAIL: AtomicU64 = AtomicU64::new(0);
 pub static MAX_OBSERVER_SPINS: AtomicU64 = AtomicU64::new(0);
 /// true while executions run under the uniformly random scheduler (every runnable task gets its
 /// share of steps, so a bound on the observer's steps is also a bound on everybody else's)
